@@ -45,6 +45,7 @@ type SOpRec struct {
 	Msg    string `json:"msg,omitempty"`
 	Inc    int    `json:"inc"`
 	Step   int    `json:"step"`
+	Issued int    `json:"issued"` // step at which the request was sent
 	Faults int    `json:"faults,omitempty"` // faults injected while the request was in flight
 	Lost   bool   `json:"lost,omitempty"`   // the process died before answering
 }
@@ -88,6 +89,8 @@ type SState struct {
 	Stats    map[string]int                       `json:"stats,omitempty"`
 	Frozen   map[string]string                    `json:"frozen,omitempty"` // task/coll -> canonical positions once dropped
 	LogHits  []string                             `json:"log_hits,omitempty"`
+	Rewritten map[string]bool                     `json:"rewritten,omitempty"` // task records written again after their deletion
+	Ambiguous map[string]bool                     `json:"ambiguous,omitempty"` // tasks hit by a store write that was applied but reported as failed
 	InFlight int                                  `json:"in_flight"` // index of the operator request in flight at the crash, -1 none
 	SimSecs  float64                              `json:"sim_secs"`
 }
@@ -138,6 +141,8 @@ type RigS struct {
 	lastStore   string
 	pauseSeen   map[string]bool
 	faultsAtStart int
+	storeFaultsAtStart int
+	deletedAt map[string]int
 }
 
 func (r *RigS) gate(kind string) Gate {
@@ -227,6 +232,9 @@ func validateS(sc *SScript) string {
 			if h.Cat == nil {
 				return "cat without write"
 			}
+			if h.Cat.Coll != 0 && !ids[h.Cat.Coll] {
+				return "catalog write of unknown collection"
+			}
 		case "mq":
 			for _, e := range h.Es {
 				if e == nil || (e.Coll != 0 && !ids[e.Coll]) || e.Shard >= sc.Knobs.ChannelNum {
@@ -277,6 +285,13 @@ func (r *RigS) loadState() {
 	if st.Frozen == nil {
 		st.Frozen = map[string]string{}
 	}
+	if st.Ambiguous == nil {
+		st.Ambiguous = map[string]bool{}
+	}
+	if st.Rewritten == nil {
+		st.Rewritten = map[string]bool{}
+	}
+	r.deletedAt = map[string]int{}
 	if st.Tasks == nil {
 		st.Tasks = map[string]*SMTask{}
 	}
@@ -480,11 +495,12 @@ func (r *RigS) startOp(idx int) {
 		method = "POST"
 	}
 	r.s.Side("operator request %d %s %s", idx, op.K, op.Task)
+	issued := r.s.Step
 	go func() {
 		rec := httptest.NewRecorder()
 		req, _ := http.NewRequest(method, "/cdc", strings.NewReader(body))
 		r.handler.ServeHTTP(rec, req)
-		out := &SOpRec{Idx: idx, K: op.K, Task: op.Task, Inc: r.plan.Incarnation}
+		out := &SOpRec{Idx: idx, K: op.K, Task: op.Task, Inc: r.plan.Incarnation, Issued: issued}
 		raw := rec.Body.String()
 		var resp struct {
 			Code    *int           `json:"code"`
@@ -505,6 +521,34 @@ func (r *RigS) startOp(idx int) {
 		r.opDone = out
 		r.mu.Unlock()
 	}()
+}
+
+// noteStoreWrite watches for a task record being written again after its deletion (a state update racing the delete).
+func (r *RigS) noteStoreWrite(key string) {
+	id := ""
+	if i := strings.Index(key, "task_info/"); i >= 0 {
+		id = key[i+len("task_info/"):]
+		if j := strings.IndexAny(id, ",# "); j >= 0 {
+			id = id[:j]
+		}
+	}
+	switch {
+	case strings.Contains(key, ":txn:") && id != "", strings.Contains(key, "exec:DELETE FROM task_info:"):
+		if id == "" {
+			id = key[strings.LastIndex(key, ":")+1:]
+		}
+		r.deletedAt[id] = r.s.Step
+	case (strings.Contains(key, ":put:") || strings.Contains(key, "exec:INSERT INTO task_info:")) && id != "":
+		if _, ok := r.deletedAt[id]; ok {
+			creating := r.opBusy && r.st.InFlight >= 0 && r.sc.Ops[r.st.InFlight].Task == id && (r.sc.Ops[r.st.InFlight].K == "create" || r.sc.Ops[r.st.InFlight].K == "raw")
+			if !creating {
+				r.st.Rewritten[id] = true
+				r.s.Probe("record_rewritten_after_delete")
+			} else {
+				delete(r.deletedAt, id)
+			}
+		}
+	}
 }
 
 func (r *RigS) isReloaded() bool { r.mu.Lock(); defer r.mu.Unlock(); return r.reloaded }
@@ -599,10 +643,24 @@ func (r *RigS) run() {
 		s.Stats[k] = v
 	}
 	s.Viol = append(s.Viol, st.Viol...)
+	r.storeFaultsAtStart = s.Stats["fault:store_err_before"] + s.Stats["fault:store_err_after"]
 	r.faultsAtStart = s.Stats["fault:store_err_before"] + s.Stats["fault:store_err_after"] + s.Stats["fault:tq_err"]
 	s.OnRelease = func(c *Call, o Outcome) {
 		if o.Fault != "" && r.opBusy {
 			r.opFaults++
+		}
+		if c.Kind == "store" && o.Fault == "" {
+			r.noteStoreWrite(c.Key)
+		}
+		if o.Fault == "store_err_after" {
+			for _, f := range strings.FieldsFunc(c.Key, func(x rune) bool { return x == '/' || x == ',' || x == ':' || x == ' ' }) {
+				if strings.HasPrefix(f, "tk") || strings.HasPrefix(f, "raw") {
+					r.st.Ambiguous[f] = true
+				}
+			}
+			if r.opBusy && r.st.InFlight >= 0 && r.sc.Ops[r.st.InFlight].Task != "" {
+				r.st.Ambiguous[r.sc.Ops[r.st.InFlight].Task] = true
+			}
 		}
 	}
 	r.build()
@@ -727,7 +785,7 @@ func (r *RigS) run() {
 		} else {
 			lull = 0
 		}
-		as = append(as, Action{Key: "clk:0500", Weight: sc.Knobs.ClockW, Run: func() { s.Stats["clock_advance"]++; s.Advance(500 * time.Millisecond) }})
+		as = append(as, Action{Key: "zclk:0500", Weight: sc.Knobs.ClockW, Run: func() { s.Stats["clock_advance"]++; s.Advance(500 * time.Millisecond) }})
 		s.StepOnce(as)
 	}
 	// drain: no new faults, no new requests; publish the rest of the history so that liveness is judged on a complete run
